@@ -11,7 +11,7 @@ git -C /repo worktree remove --force "$wt" >/dev/null 2>&1; rm -rf "$wt"
 git -C /repo worktree add --detach "$wt" HEAD -q || { echo "worktree failed" >> "$log"; exit 2; }
 ( cd "$wt" && git apply "$out/patch.diff" ) || { echo "APPLY: failed" >> "$log"; git -C /repo worktree remove --force "$wt"; exit 1; }
 echo "APPLY: ok ($(git -C "$wt" diff --stat | tail -1))" >> "$log"
-( cd "$wt" && cmake -G Ninja -B _build -S . >/dev/null 2>&1 && cmake --build _build 2>&1 | tail -1 ) >> "$log" 2>&1
+( cd "$wt" && cmake -G Ninja -DCMAKE_BUILD_TYPE=RelWithDebInfo -B _build -S . >/dev/null 2>&1 && cmake --build _build 2>&1 | tail -1 ) >> "$log" 2>&1
 mkdir -p "$wt/_tmp"
 ( cd "$wt" && TEST_TMPDIR="$wt/_tmp" ctest --test-dir _build -j6 --timeout 900 2>&1 | grep -E "tests passed|FAILED|Failed|\*\*\*" ) >> "$log" 2>&1
 if [ -n "$demo" ]; then
